@@ -27,7 +27,6 @@ void KademliaTable::add_contact(const ChunkId& chunk_id, PeerContact contact, st
     const auto key = chunk_id_to_string(chunk_id);
     auto& locator = table_[key];
     locator.id = chunk_id;
-    locator.expires_at = contact.expires_at;
 
     auto& holders = locator.holders;
     holders.erase(std::remove_if(holders.begin(), holders.end(), [&](const PeerContact& existing) {
@@ -43,6 +42,12 @@ void KademliaTable::add_contact(const ChunkId& chunk_id, PeerContact contact, st
         });
         holders.resize(kMaxProviders);
     }
+
+    // The locator lives as long as its longest-lived holder, so a sweep never drops a
+    // provider that is still valid just because a shorter-lived one announced last.
+    locator.expires_at = std::max_element(holders.begin(), holders.end(), [](const PeerContact& lhs, const PeerContact& rhs) {
+                             return lhs.expires_at < rhs.expires_at;
+                         })->expires_at;
 }
 
 std::vector<PeerContact> KademliaTable::find_providers(const ChunkId& chunk_id) {
